@@ -3,6 +3,7 @@ package cli
 import (
 	"encoding/json"
 	"io"
+	"strings"
 )
 
 type jsonStream struct {
@@ -50,7 +51,7 @@ func (s *jsonStream) next() (any, error) {
 			if err == io.EOF && s.states[len(s.states)-1] != jsonStateTopValue {
 				err = io.ErrUnexpectedEOF
 			} else if err, ok := err.(*json.SyntaxError); ok {
-				err.Offset = s.syntaxErrorOffset()
+				err.Offset = s.syntaxErrorOffset(err)
 			}
 			return nil, err
 		}
@@ -108,7 +109,17 @@ func (s *jsonStream) next() (any, error) {
 
 // Offset of json.SyntaxError returned by Token is not the offset in the input,
 // so scan the invalid token again to locate the invalid character.
-func (s *jsonStream) syntaxErrorOffset() int64 {
+func (s *jsonStream) syntaxErrorOffset(err *json.SyntaxError) int64 {
+	// An unexpected character between the values is reported where it is.
+	for _, context := range []string{
+		" after array element", " after object key",
+		" after object key:value pair",
+		" looking for beginning of object key string",
+	} {
+		if strings.HasSuffix(err.Error(), context) {
+			return err.Offset + 1
+		}
+	}
 	offset := s.dec.InputOffset() + 1
 	var v any
 	if err, ok := json.NewDecoder(s.dec.Buffered()).
